@@ -25,7 +25,9 @@ import (
 	"seata.apache.org/seata-go/pkg/client"
 	"seata.apache.org/seata-go/pkg/compressor"
 	seatasql "seata.apache.org/seata-go/pkg/datasource/sql"
+	"seata.apache.org/seata-go/pkg/datasource/sql/datasource"
 	"seata.apache.org/seata-go/pkg/datasource/sql/exec/at"
+	"seata.apache.org/seata-go/pkg/datasource/sql/types"
 	"seata.apache.org/seata-go/pkg/datasource/sql/undo"
 	undoparser "seata.apache.org/seata-go/pkg/datasource/sql/undo/parser"
 	"seata.apache.org/seata-go/pkg/protocol/branch"
@@ -63,8 +65,11 @@ type Config struct {
 	OnlyCareUpdateColumns *bool  `json:"only_care_update_columns,omitempty"` // default true
 	LockRetryTimes        int    `json:"lock_retry_times,omitempty"`         // default 1
 	LockRetryIntervalMs   int    `json:"lock_retry_interval_ms,omitempty"`   // default 1
-	ResetDiscardsTx       bool   `json:"reset_discards_tx,omitempty"`        // fakedb: ResetSession rolls an open tx back
-	StepLimitMs           int    `json:"step_limit_ms,omitempty"`            // per-step wall-clock limit (default 10000)
+	// AutoIncrementIncrement: fakedb's auto_increment_increment (generated keys 1, 1+n, ...; SHOW VARIABLES answers it); default 1.
+	// The step `db_autoinc` {n} changes it in the middle of a scenario.
+	AutoIncrementIncrement int  `json:"auto_increment_increment,omitempty"`
+	ResetDiscardsTx        bool `json:"reset_discards_tx,omitempty"` // fakedb: ResetSession rolls an open tx back
+	StepLimitMs            int  `json:"step_limit_ms,omitempty"`     // per-step wall-clock limit (default 10000)
 }
 
 // Step is one sequential step. See docs/ATRUN.md for the kinds.
@@ -345,6 +350,7 @@ func Run(sc Scenario) *Trace {
 	}
 	r.srv = srv
 	srv.ResetDiscardsTx = sc.Config.ResetDiscardsTx
+	srv.SetAutoIncStep(int64(sc.Config.AutoIncrementIncrement))
 	if sc.Version != "" {
 		srv.SetVersion(sc.Version)
 	}
@@ -837,6 +843,17 @@ func (r *runner) simple(ctx context.Context, s Step, path string, res *StepResul
 			return err
 		}
 		r.dbs[fmt.Sprintf("at#%d", len(r.dbs))] = d
+		return nil
+	case "meta_real_refresh":
+		// the REAL background refresh of the current table-meta cache (verif hook), then time for its pass to finish
+		if c, ok := datasource.GetTableCache(types.DBTypeMySQL).(interface{ VerifRefreshNow() }); ok {
+			c.VerifRefreshNow()
+			time.Sleep(60 * time.Millisecond)
+			return nil
+		}
+		return fmt.Errorf("atrun: the table-meta cache has no VerifRefreshNow hook")
+	case "db_autoinc":
+		r.srv.SetAutoIncStep(int64(s.N))
 		return nil
 	case "db_locks":
 		res.Locks = append([]string{}, r.srv.HeldLocks()...)
